@@ -41,7 +41,7 @@ def run_shards(args, timeout):
     while pending or running:
         while pending and len(running) < NCPU:
             a = pending.pop(0)
-            p = subprocess.Popen([env.PY, "-m", "vlib.webtree", json.dumps(a)], stdout=subprocess.PIPE, stderr=subprocess.PIPE,
+            p = subprocess.Popen([env.PY, "-m", "vlib.webtree", json.dumps(a)], stdout=subprocess.PIPE, stderr=subprocess.DEVNULL,
                                  cwd=env.VERIF, env=env.child_env("0"))
             running.append((a, p))
         a, p = running.pop(0)
@@ -50,7 +50,7 @@ def run_shards(args, timeout):
             if p.returncode == 0 and out.strip():
                 results.append((a, json.loads(out.decode().strip().splitlines()[-1]), None))
             else:
-                results.append((a, None, err.decode()[-600:]))
+                results.append((a, None, f"exit {p.returncode}"))
         except subprocess.TimeoutExpired:
             p.kill()
             p.communicate()
